@@ -63,6 +63,7 @@ def known_match(known, prop, signature):
 
 # reach probes that must be non-zero in a batch (otherwise the batch is not a pass)
 REQUIRED_PROBES = {
+    "C15": ["set_rejected", "set_rejected_while_following", "set_time_after_clock_moved", "update_while_following", "adapter_get"],
     "C02": ["two_different_errors", "nary_leading_absent", "equivalence_checked"],
     "C08": ["both_sides_present", "one_sided", "axle_partial_presence", "diff_equal_all_present", "diff_waits_for_data",
             "teeth_ratio_observed"],
@@ -77,6 +78,11 @@ REQUIRED_PROBES = {
 }
 
 RULES = {
+    "settable": ("each case is one seeded op history over four settables (user motor relying on the trait defaults, "
+                 "ConstantGetter, Terminal state, Terminal command), their followed getters, a scripted clock (jumps forwards "
+                 "and backwards, errors) and a GetterFromHistory adapter in its four constructor forms over a recording history. "
+                 "Non-trivial: a set was rejected, an update ran while following, or the adapter was read; distinct = hash of the "
+                 "(op, settable) sequence, counted with a set."),
     "comb": ("each case is one seeded plan: a DAG (depth <= 3) of real rrtk combinators over scripted f32 / bool / Quantity "
              "leaf sensors and clocks, and an op list that re-scripts leaves (present with older/equal/newer stamps, absent, "
              "E1, E2) and clocks (before/at/after expiry, error); every node is read after every op and judged against a "
@@ -99,6 +105,12 @@ RULES = {
 }
 
 COMPONENTS = {
+    "settable": {
+        "real": ["Settable default methods (set/follow/stop_following/update_following_data/get_last_request)", "SettableData",
+                 "ConstantGetter", "Terminal (both Settable impls, Updatable)", "GetterFromHistory (all constructors, set_delta, "
+                 "set_time, get, update)", "TimeGetterFromGetter", "NoneToError"],
+        "stub": ["FaultyMotor (impl_set accept/reject)", "followed getters", "SimClock", "RecordingHistory", "reference model"],
+    },
     "comb": {
         "real": ["SumStream<1..8>", "ProductStream<1..8>", "Latest<1..8>", "Sum2", "Product2", "DifferenceStream",
                  "QuotientStream", "ExponentStream", "IfStream", "IfElseStream", "Expirer", "NoneToError", "NoneToValue",
@@ -234,7 +246,7 @@ def sim_batch(prop, tier, seed, world):
 SIM_PROPS = {
     "C04": "node", "C05": "node", "C10": "node", "C11": "node", "C12": "node",
     "C08": "device", "C09": "device", "C13": "device", "C20": "device",
-    "C02": "comb", "C03": "mixed",
+    "C02": "comb", "C03": "mixed", "C15": "settable",
 }
 
 
